@@ -28,6 +28,8 @@ def run_property(prop: str, tier: str, replay: str | None = None,
         ctx = Ctx(prop, tier, model)
         mod.run(ctx)
         assert_not_imported()
+        if tier == "thorough" and root is None and not replay:
+            _self_validate(ctx, prop)
         replay_key = None
         if replay:
             with open(replay) as f:
@@ -40,6 +42,41 @@ def run_property(prop: str, tier: str, replay: str | None = None,
         tb = traceback.format_exc()
         print(f"ANALYSIS-ERROR property={prop}: internal error\n{tb}")
         return 2
+
+
+def _self_validate(ctx, prop):
+    """thorough tier: run this property's share of the firing / silent variant
+    corpus against scratch copies; an insensitive or over-sensitive checker is
+    an ANALYSIS-ERROR (exit 2), never a violation of the property"""
+    import sys as _sys
+    here = os.path.dirname(os.path.dirname(os.path.abspath(__file__)))
+    if here not in _sys.path:
+        _sys.path.insert(0, here)
+    from concurrent.futures import ProcessPoolExecutor
+    from selftest.run import judge, run_one
+    from selftest.variants import VARIANTS
+    todo = [dict(v, props=[prop]) for v in VARIANTS if prop in v["props"]]
+    bad = []
+    skipped = 0
+    fired = silent = 0
+    with ProcessPoolExecutor(max_workers=min(16, os.cpu_count() or 4)) as ex:
+        for vid, status, results, v in ex.map(run_one, todo):
+            if status == "inapplicable":
+                skipped += 1
+                continue
+            ok, msg = judge(v, results)
+            if not ok:
+                bad.append(f"{vid}: {msg.splitlines()[0] if msg else ''}")
+            elif v["kind"] == "fire":
+                fired += 1
+            else:
+                silent += 1
+    ctx.extra["self_validation"] = {
+        "variants": len(todo), "firing_detected": fired, "silent_quiet": silent,
+        "inapplicable": skipped, "failed": bad}
+    if bad:
+        raise AnalysisError("checker self-validation failed (the checker, not "
+                            "the repository, is at fault): " + "; ".join(bad[:5]))
 
 
 def selfcheck() -> int:
